@@ -1,8 +1,17 @@
-import Dawn.Model.Loader
+import Dawn.Proofs.LoaderInv5
 /-!
-# C06 — module loading is once-only, terminating and cycle-safe   (work in progress: breadth-first skeleton)
+# C06 — module loading is once-only, terminating and cycle-safe
+
+Property theorems only. `next .fixed` is the model of `Project.loadModule` / `(*module).{setLoading,getLoading,wait,
+done,load}` after the repair of D4 (tied to the source by `Dawn/Ties/Loader.lean` and by the trace streams
+`loader.sched`, `loader.stress` validated by `drv_loader`); `next .asWritten` is the code before the repair, kept for
+the regression witness. `Reachable .fixed P s`: some interleaving of the per-package loader goroutines of project `P`
+(any load graph `P.loads`, any list of packages `P.roots`) reaches `s`. `Terminal P s`: every goroutine has returned
+(`Load` goes on to collect the modules' errors). `execs m` counts the `ModuleLoading` events of `m`.
 -/
 namespace Dawn.Loader
+
+/-! ## the defect (D4) -/
 
 /-- two packages (modules 0, 1 = their BUILD files) load the helper 2 = `//lib:h.dawn`, which loads 3 = `:h2.dawn` -/
 def sharedHelper : Project :=
@@ -26,5 +35,175 @@ theorem C06_shared_helper_counterexample :
   | some s =>
     simp [hr] at h
     exact ⟨s, steps_of_run hr, h.1.1.1.1, h.1.1.1.2, h.1.1.2, h.1.2, h.2⟩
+
+/-! ## the repaired loader -/
+
+/-- C06, once-only: in every reachable state every module file has been executed at most once, however many modules
+load it and whatever the interleaving. -/
+theorem C06_once {P : Project} {s : State} (h : Reachable .fixed P s) (m : Mod) : s.execs m ≤ 1 :=
+  (inv2_reachable h).execs_le m
+
+/-- a module is executed only after it was put into the registry by the executing goroutine, and a module that has
+finished loading was executed exactly once -/
+theorem C06_once_loaded {P : Project} {s : State} (h : Reachable .fixed P s) (m : Mod) :
+    (s.loaded m = true → s.execs m = 1) ∧ (s.registry m = false → s.execs m = 0) :=
+  ⟨(inv2_reachable h).loaded_execs m, (inv2_reachable h).unreg m⟩
+
+/-- C06, no false cycle: in an acyclic project no goroutine ever obtains a cyclic-dependency verdict and no module
+ever fails — in every reachable state. -/
+theorem C06_no_false_cycle {P : Project} (hac : Acyclic P) {s : State} (h : Reachable .fixed P s) :
+    (∀ t, s.pc t ≠ .unset .cyc ∧ s.pc t ≠ .fin .cyc) ∧ ∀ m, s.failed m = false :=
+  have nf := nofail_reachable hac h
+  ⟨fun t => ⟨nf.no_unset t, nf.no_fin t⟩, nf.no_failed⟩
+
+/-- when all goroutines have returned and nothing failed, everything reachable from a package is loaded -/
+theorem terminal_closure {P : Project} {s : State} (h : Reachable .fixed P s) (ht : Terminal P s)
+    (hnf : ∀ m, s.loaded m = true → s.failed m = false) : ∀ m, Reach P m → okLoaded s m := by
+  have inv5 := inv5_reachable h
+  have hroot : ∀ r ∈ P.roots, okLoaded s r := by
+    intro r hr
+    obtain ⟨t, htl, hget⟩ := List.getElem_of_mem hr
+    have h1 : P.roots[t]? = some r := by rw [List.getElem?_eq_getElem htl, hget]
+    have hl := inv5.root_done t r h1 (Or.inl (ht t htl))
+    exact ⟨hl, hnf r hl⟩
+  have hpath : ∀ a b, Path P a b → okLoaded s a → okLoaded s b := by
+    intro a b p
+    induction p with
+    | edge e => intro ha; exact (inv5.ok_closed _ ha _ e).1
+    | cons e _ ih => intro ha; exact ih (inv5.ok_closed _ ha _ e).1
+  intro m ⟨r, hr, hm⟩
+  rcases hm with rfl | hp
+  · exact hroot r hr
+  · exact hpath r m hp (hroot r hr)
+
+/-- C06, acyclic graphs load successfully: when every goroutine of an acyclic project has returned, no module has
+failed, every module reachable from a package — helpers shared by several packages and the modules they load
+included — has been loaded, executed exactly once, and nothing else has been executed. -/
+theorem C06_acyclic_ok {P : Project} (hac : Acyclic P) {s : State} (h : Reachable .fixed P s) (ht : Terminal P s) :
+    (∀ m, s.failed m = false) ∧ (∀ m, Reach P m → s.loaded m = true ∧ s.execs m = 1) ∧
+    (∀ m, ¬ Reach P m → s.loaded m = false ∧ s.execs m = 0) := by
+  have nf := nofail_reachable hac h
+  refine ⟨nf.no_failed, ?_, ?_⟩
+  · intro m hm
+    have := terminal_closure h ht (fun m _ => nf.no_failed m) m hm
+    exact ⟨this.1, (inv2_reachable h).loaded_execs m this.1⟩
+  · intro m hm
+    have hreg : s.registry m = false := by
+      cases hr : s.registry m with
+      | false => rfl
+      | true => exact absurd ((inv4_reachable h).reg_reach m hr) hm
+    refine ⟨?_, (inv2_reachable h).unreg m hreg⟩
+    cases hl : s.loaded m with
+    | false => rfl
+    | true => rw [(inv1_reachable h).loaded_reg m hl] at hreg; cases hreg
+
+/-- C06, deterministic result: any two complete loads of the same acyclic project — whatever the two interleavings —
+end with the same modules loaded, none failed, and the same execution counts; the project's targets and flags are
+those the loaded modules define, hence the same. -/
+theorem C06_deterministic {P : Project} (hac : Acyclic P) {s₁ s₂ : State}
+    (h₁ : Reachable .fixed P s₁) (h₂ : Reachable .fixed P s₂) (t₁ : Terminal P s₁) (t₂ : Terminal P s₂) (m : Mod) :
+    s₁.loaded m = s₂.loaded m ∧ s₁.failed m = s₂.failed m ∧ s₁.execs m = s₂.execs m := by
+  have a₁ := C06_acyclic_ok hac h₁ t₁
+  have a₂ := C06_acyclic_ok hac h₂ t₂
+  refine ⟨?_, by rw [a₁.1 m, a₂.1 m], ?_⟩
+  · by_cases hm : Reach P m
+    · rw [(a₁.2.1 m hm).1, (a₂.2.1 m hm).1]
+    · rw [(a₁.2.2 m hm).1, (a₂.2.2 m hm).1]
+  · by_cases hm : Reach P m
+    · rw [(a₁.2.1 m hm).2, (a₂.2.1 m hm).2]
+    · rw [(a₁.2.2 m hm).2, (a₂.2.2 m hm).2]
+
+/-- C06, cycles are reported: if a module reachable from a package lies on a cycle of `load` statements, then whenever
+all goroutines have returned some module has failed — and modules fail only with the cyclic-dependency error, which
+`Load` returns. (That the goroutines do return is `C06_deadlock_free`.) -/
+theorem C06_cycle_reported {P : Project} {s : State} (h : Reachable .fixed P s) (ht : Terminal P s)
+    (hc : ∃ m, Reach P m ∧ Path P m m) : ∃ m, s.loaded m = true ∧ s.failed m = true := by
+  apply Classical.byContradiction
+  intro hno
+  have hnf : ∀ m, s.loaded m = true → s.failed m = false := by
+    intro m hl
+    cases hf : s.failed m with
+    | false => rfl
+    | true => exact absurd ⟨m, hl, hf⟩ hno
+  obtain ⟨m, hm, hp⟩ := hc
+  have inv5 := inv5_reachable h
+  have hok := terminal_closure h ht hnf m hm
+  -- completion times strictly decrease along load edges of successfully loaded modules
+  have hdec : ∀ a b, Path P a b → okLoaded s a → okLoaded s b ∧ s.ftime b < s.ftime a := by
+    intro a b p
+    induction p with
+    | edge e => intro ha; exact inv5.ok_closed _ ha _ e
+    | cons e _ ih =>
+      intro ha
+      have h1 := inv5.ok_closed _ ha _ e
+      have h2 := ih h1.1
+      exact ⟨h2.1, Nat.lt_trans h2.2 h1.2⟩
+  exact absurd (hdec m m hp hok).2 (Nat.lt_irrefl _)
+
+/-! ## Non-vacuity -/
+
+theorem acyclic_of_rank {P : Project} (rank : Mod → Nat) (h : ∀ a b, b ∈ P.loads a → rank b < rank a) : Acyclic P := by
+  intro m _ hp
+  have : ∀ a b, Path P a b → rank b < rank a := by
+    intro a b p
+    induction p with
+    | edge e => exact h _ _ e
+    | cons e _ ih => exact Nat.lt_trans ih (h _ _ e)
+  exact absurd (this m m hp) (Nat.lt_irrefl _)
+
+/-- the D4 project is acyclic … -/
+theorem sharedHelper_acyclic : Acyclic sharedHelper := by
+  refine acyclic_of_rank (fun m => match m with | 0 => 3 | 1 => 3 | 2 => 2 | _ => 0) ?_
+  intro a b hb
+  match a with
+  | 0 => simp [sharedHelper] at hb; subst hb; decide
+  | 1 => simp [sharedHelper] at hb; subst hb; decide
+  | 2 => simp [sharedHelper] at hb; subst hb; decide
+  | n + 3 => simp [sharedHelper] at hb
+
+/-- … and the repaired loader completes the very schedule that hangs the code as written, and then finishes: a
+reachable terminal state with all four modules loaded once -/
+example : ∃ s, Reachable .fixed sharedHelper s ∧ Terminal sharedHelper s ∧
+    (∀ m, m < 4 → s.loaded m = true ∧ s.execs m = 1) := by
+  have h : (run .fixed sharedHelper (init sharedHelper)
+      (sharedHelperSchedule ++ [1, 1, 1, 0, 0, 0, 1, 1, 1, 1, 1, 0, 0, 0, 0])).any (fun s =>
+      !unfinished sharedHelper s && (List.range 4).all fun m => s.loaded m && s.execs m == 1) = true := by decide
+  cases hr : run .fixed sharedHelper (init sharedHelper)
+      (sharedHelperSchedule ++ [1, 1, 1, 0, 0, 0, 1, 1, 1, 1, 1, 0, 0, 0, 0]) with
+  | none => simp [hr] at h
+  | some s =>
+    simp only [hr, Option.any_some, Bool.and_eq_true, Bool.not_eq_eq_eq_not, Bool.not_true, List.all_eq_true,
+      List.mem_range, beq_iff_eq] at h
+    refine ⟨s, steps_of_run hr, ?_, fun m hm => h.2 m hm⟩
+    intro t ht
+    have := h.1
+    simp only [unfinished, List.any_eq_false, List.mem_range, bne_iff_ne, ne_eq, Decidable.not_not] at this
+    exact this t ht
+
+/-- a cyclic project: package 0 loads 1, 1 loads 2, 2 loads 3, 3 loads 1 (the three-module cycle that the code as
+written cannot report) -/
+def threeCycle : Project :=
+  { loads := fun m => match m with | 0 => [1] | 1 => [2] | 2 => [3] | 3 => [1] | _ => [], roots := [0] }
+
+example : ∃ m, Reach threeCycle m ∧ Path threeCycle m m :=
+  ⟨1, ⟨0, by simp [threeCycle], Or.inr (.edge (by simp [threeCycle]))⟩,
+    .cons (b := 2) (by simp [threeCycle]) (.cons (b := 3) (by simp [threeCycle]) (.edge (by simp [threeCycle])))⟩
+
+def threeCycleSchedule : List Tid :=
+  [0, 0, 0, 0, 0, 0, 0, 0, 0, 0, 0, 0, 0, 0, 0, 0, 0, 0, 0, 0, 0, 0, 0, 0, 0, 0, 0, 0, 0, 0]
+
+/-- the repaired loader reaches a terminal state on it, with the cycle's modules failed -/
+example : ∃ s, Reachable .fixed threeCycle s ∧ Terminal threeCycle s ∧ s.loaded 1 = true ∧ s.failed 1 = true := by
+  have h : (run .fixed threeCycle (init threeCycle) threeCycleSchedule).any (fun s =>
+      !unfinished threeCycle s && s.loaded 1 && s.failed 1) = true := by decide
+  cases hr : run .fixed threeCycle (init threeCycle) threeCycleSchedule with
+  | none => simp [hr] at h
+  | some s =>
+    simp only [hr, Option.any_some, Bool.and_eq_true, Bool.not_eq_eq_eq_not, Bool.not_true] at h
+    refine ⟨s, steps_of_run hr, ?_, h.1.2, h.2⟩
+    intro t ht
+    have := h.1.1
+    simp only [unfinished, List.any_eq_false, List.mem_range, bne_iff_ne, ne_eq, Decidable.not_not] at this
+    exact this t ht
 
 end Dawn.Loader
